@@ -28,13 +28,14 @@ structure FrameGI (c : Nat) (r : Region) (m m' : Mem α) : Prop where
   nid : m.nextId ≤ m'.nextId
   fresh : Fresh m → Fresh m'
   bufOther : ∀ r', r' ≠ r → r' ≠ .inl c → (∀ id, r' = .blk id → id < m.nextId) → m'.buf r' = m.buf r'
+  cntOther : ∀ id, Region.blk id ≠ r → id < m.nextId → m'.cnt id = m.cnt id
 
 /-- `FrameL` with the inline storage of container `c` itself exempted from the frame -/
 structure FrameLI (cfg : Cfg) (c : Nat) (r : Region) (m m' : Mem α) : Prop extends FrameGI c r m m' where
   noLeak : NoLeak cfg c m m'
 
 theorem FrameL.toI {cfg : Cfg} {c : Nat} {r : Region} {m m' : Mem α} (h : FrameL cfg c r m m') : FrameLI cfg c r m m' :=
-  ⟨⟨h.cat, h.hr, h.wsLen, h.wsOther, h.nid, h.fresh, fun r' h1 _ h3 => h.bufOther r' h1 h3⟩, h.noLeak⟩
+  ⟨⟨h.cat, h.hr, h.wsLen, h.wsOther, h.nid, h.fresh, fun r' h1 _ h3 => h.bufOther r' h1 h3, h.cntOther⟩, h.noLeak⟩
 
 /-- the full frame is recovered when the inline storage of the container is unchanged -/
 theorem FrameLI.toL {cfg : Cfg} {c : Nat} {r : Region} {m m' : Mem α} (h : FrameLI cfg c r m m')
@@ -42,7 +43,7 @@ theorem FrameLI.toL {cfg : Cfg} {c : Nat} {r : Region} {m m' : Mem α} (h : Fram
   ⟨⟨h.cat, h.hr, h.wsLen, h.wsOther, h.nid, h.fresh, fun r' h1 h3 => by
       by_cases h2 : r' = .inl c
       · rw [h2]; exact hinl
-      · exact h.bufOther r' h1 h2 h3⟩, h.noLeak⟩
+      · exact h.bufOther r' h1 h2 h3, h.cntOther⟩, h.noLeak⟩
 
 /-- `StrongPost` with the frame `FrameLI` -/
 def StrongPostI (cfg : Cfg) (Ok : VB → Prop) (c : Nat) (m : Mem α) (w : VB) (xs xs' : List α) (okv : β) :
@@ -97,6 +98,7 @@ theorem FrameLI.release {cfg : Cfg} {c : Nat} {m0 m' : Mem α} {w w' : VB} {id :
     (hws0 : m0.ws[c]? = some w) (hreg : regionOf cfg c w = .blk id) (hws' : m'.ws = m0.ws.set c w')
     (hown' : ∀ j, regionOf cfg c w' = .blk j → cfg.ops.capacity w' = 0)
     (hbuf : ∀ r', r' ≠ .blk id → r' ≠ .inl c → m'.buf r' = m0.buf r') (hgone : m'.buf (.blk id) = none)
+    (hcnt : ∀ j, j ≠ id → j < m0.nextId → m'.cnt j = m0.cnt j)
     (hcat : m'.cat = m0.cat) (hhr : m'.hasRealloc = m0.hasRealloc) (hnid : m0.nextId ≤ m'.nextId) :
     FrameLI cfg c (.blk id) m0 m' := by
   have hc : c < m0.ws.length := Cross.getElem?_lt hws0
@@ -104,7 +106,8 @@ theorem FrameLI.release {cfg : Cfg} {c : Nat} {m0 m' : Mem α} {w w' : VB} {id :
     intro j hj
     have hne : j ≠ id := by rintro rfl; rw [hgone] at hj; cases hj
     exact ⟨hne, hbuf _ (by intro e; injection e with e; exact hne e) (by intro e; cases e)⟩
-  refine ⟨⟨hcat, hhr, by rw [hws']; simp, fun c' hc' => by rw [hws']; simp [List.getElem?_set_ne (Ne.symm hc')], hnid, ?_, ?_⟩, ?_⟩
+  refine ⟨⟨hcat, hhr, by rw [hws']; simp, fun c' hc' => by rw [hws']; simp [List.getElem?_set_ne (Ne.symm hc')], hnid, ?_, ?_,
+    fun j hne hlt => hcnt j (fun e => hne (by rw [e])) hlt⟩, ?_⟩
   · intro hf j hj
     obtain ⟨_, e⟩ := hblk j hj
     rw [e] at hj
@@ -198,7 +201,7 @@ theorem shrinkToFit_spec {cfg : Cfg} {Ok : VB → Prop} {P : Nat → Prop} (S : 
         rw [hbm.buf]; simpa using hb0
       have h2' : m1.buf (.inl c) = some ([] ++ raws xs.length ++ raws (cfg.n - xs.length)) := by
         rw [hbm.buf, hinl0, List.nil_append, raws_append]; congr 2; omega
-      refine Post.bind (Q1 := fun res m4 => res = .ok () ∧ KeepA m1 m4 ∧
+      refine Post.bind (Q1 := fun res m4 => res = .ok () ∧ KeepA m1 m4 ∧ (∀ j, j ≠ id → m4.cnt j = m1.cnt j) ∧
           m4.buf = View.unset (View.set m1.buf (.inl c) (lives xs ++ raws (cfg.n - xs.length))) (.blk id)) ?_ ?_
           (by rintro e m4 ⟨he, _⟩; cases he)
       · refine Post.bind (relocAcross_post m1 (.blk id) (.inl c) hner [] _ [] _ xs h2 h2') ?_ (by okerr)
@@ -209,7 +212,7 @@ theorem shrinkToFit_spec {cfg : Cfg} {Ok : VB → Prop} {P : Nat → Prop} (S : 
         refine Post.bind (deallocBlock_post m3 id _ _ h3 hc3 (Or.inl ?_)) ?_ (by rintro e m4 ⟨he, _⟩; cases he)
         · intro s hs; rw [raws_append] at hs; exact all_raw _ s hs
         · rintro _ m4 ⟨_, hf4⟩
-          refine Post.pure ⟨rfl, hk3.toA.trans hf4.keep, ?_⟩
+          refine Post.pure ⟨rfl, hk3.toA.trans hf4.keep, fun j hj => by rw [hf4.cntOther j hj, hk3.cnt], ?_⟩
           rw [hf4.buf, hb3]
           funext r
           by_cases h1 : r = .blk id
@@ -217,7 +220,7 @@ theorem shrinkToFit_spec {cfg : Cfg} {Ok : VB → Prop} {P : Nat → Prop} (S : 
           · by_cases h2 : r = .inl c
             · subst h2; simp [View.set, View.unset]
             · simp [View.set, View.unset, h1, h2]
-      · rintro _ m4 ⟨_, hk4, hb4⟩
+      · rintro _ m4 ⟨_, hk4, hc4, hb4⟩
         refine Post.mono (setW_post m4 c _) ?_
         rintro res m5 ⟨hr, rfl⟩
         have hws4 : m4.ws = m0.ws := hk4.ws.trans hbm.ws
@@ -228,7 +231,8 @@ theorem shrinkToFit_spec {cfg : Cfg} {Ok : VB → Prop} {P : Nat → Prop} (S : 
         · intro hne; exact absurd hreg' hne
         · rw [hreg]
           refine FrameLI.release h.ws hreg (by show m4.ws.set c w' = _; rw [hws4]) (fun j hj => by rw [hreg'] at hj; cases hj)
-            ?_ (by rw [withWs_buf, hb4, View.unset_same]) (hk4.cat.trans hbm.cat) (hk4.hr.trans hbm.hr)
+            ?_ (by rw [withWs_buf, hb4, View.unset_same])
+            (fun j hj _ => (withWs_cnt _ _ _).trans ((hc4 j hj).trans (hbm.cnt j))) (hk4.cat.trans hbm.cat) (hk4.hr.trans hbm.hr)
             (by show m0.nextId ≤ m4.nextId; rw [hk4.nid, hbm.nid]; omega)
           intro r' h1 h2
           rw [withWs_buf, hb4, View.unset_other _ _ _ h1, View.set_other _ _ _ _ h2, hbm.buf]
@@ -257,7 +261,8 @@ theorem shrinkToFit_spec {cfg : Cfg} {Ok : VB → Prop} {P : Nat → Prop} (S : 
         · intro hne; exact absurd hreg' hne
         · refine ⟨⟨hs4.2.cat.trans hbm.cat, hs4.2.hr.trans hbm.hr, by simp [hws4],
             fun c' hc' => by simp [hws4, List.getElem?_set_ne (Ne.symm hc')],
-            by show m0.nextId ≤ m4.nextId; rw [hs4.2.nid, hbm.nid]; omega, ?_, fun r' _ _ _ => by rw [withWs_buf, hbuf4]⟩, ?_⟩
+            by show m0.nextId ≤ m4.nextId; rw [hs4.2.nid, hbm.nid]; omega, ?_, fun r' _ _ _ => by rw [withWs_buf, hbuf4],
+            fun j _ _ => (withWs_cnt _ _ _).trans ((hs4.2.cnt j).trans (hbm.cnt j))⟩, ?_⟩
           · intro hf0 j hj
             rw [withWs_buf, hbuf4] at hj
             show j < m4.nextId
@@ -315,6 +320,7 @@ theorem shrinkToFit_spec {cfg : Cfg} {Ok : VB → Prop} {P : Nat → Prop} (S : 
           exact hinl0 hfl
         have hg : GrowPost cfg Ok c m0 xs w0 0 (.ok ()) ({ m3 with ws := m3.ws.set c w' } : Mem α) := by
           refine GrowPost.finish (View.unset m0.buf (.blk id)) h.ws (by rw [hmv.buf, hbm.buf]) ?_ ?_ ?_ hmv.cnt
+            (fun j hne hlt => (hmv.cntOther j (fun e => hne (by rw [hreg, e])) (Nat.ne_of_lt hlt)).trans (hbm.cnt j))
             (hmv.keep.cat.trans hbm.cat) (hmv.keep.ws.trans hbm.ws) (hmv.keep.hr.trans hbm.hr) (hmv.keep.nid.trans hbm.nid)
             hok hcap (by rw [hsz', hsz]) hbeg (Nat.le_refl _) (Nat.zero_le _) hpos hinl3
           · intro r' hr'; rw [hreg] at hr'; exact View.unset_other _ _ _ hr'
@@ -369,7 +375,8 @@ theorem shrinkToFit_spec {cfg : Cfg} {Ok : VB → Prop} {P : Nat → Prop} (S : 
       exact h.store.inl (by rw [hreg]; intro e; cases e) hfl
     · rw [hreg]
       refine FrameLI.release h.ws hreg (by show m4.ws.set c w' = _; rw [hws4]) (fun _ _ => hcap)
-        ?_ (by rw [withWs_buf, hf4.buf, View.unset_same]) (hf4.keep.cat.trans hbm.cat) (hf4.keep.hr.trans hbm.hr)
+        ?_ (by rw [withWs_buf, hf4.buf, View.unset_same])
+        (fun j hj _ => (withWs_cnt _ _ _).trans ((hf4.cntOther j hj).trans (hbm.cnt j))) (hf4.keep.cat.trans hbm.cat) (hf4.keep.hr.trans hbm.hr)
         (by show m0.nextId ≤ m4.nextId; rw [hf4.keep.nid, hbm.nid]; omega)
       intro r' h1 _
       rw [withWs_buf, hf4.buf, View.unset_other _ _ _ h1, hbm.buf]
